@@ -376,6 +376,7 @@ def pp_models(prog, raw):
         sb = [it.load(y.obj, y.path[:-1] + (y.path[-1] + i,)) for i in range(n)]
         return (sa > sb) - (sa < sb)
     M['memcmp'] = memcmp
+    M['tokendesc'] = lambda it, a, e: None       # the text of a diagnostic about a token is C11/C19 matter; here only that it is raised
     return M
 
 
@@ -487,7 +488,9 @@ DIRECTIVES = [('#if 1\n', False), ('#ifdef A\n', False), ('#ifndef A\n', False),
               # 6.10.3p5-6: macro parameters are uniquely declared; __VA_ARGS__ occurs only in the replacement list of a variadic macro
               ('#define C(a, a) a\n', False), ('#define C(a, b, a) b\n', False), ('#define C(a, b, c) a b c\nC(1,2,3);', True), ('#define __VA_ARGS__ 1\n', False), ('#define C(__VA_ARGS__) 1\n', False),
               ('#define C(a, __VA_ARGS__) 1\n', False), ('#define C(...) __VA_ARGS__\nC(1);', True),
-              ('#\n1;', True), ('#pragma once\n2;', True), ('#line 5\n3;', True), ('# 7 "f.c" 1\n4;', True), ('#define C(a, ...) a\nC(1,2,3);', True), ('#undef ZZ\n5;', True)]
+              ('#\n1;', True), ('#pragma once\n2;', True), ('#line 5\n3;', True), ('# 7 "f.c" 1\n4;', True), ('#define C(a, ...) a\nC(1,2,3);', True), ('#undef ZZ\n5;', True),
+              # nothing but the number, the file name and (for line markers) numeric flags: anything else before the end of the line is diagnosed, not dropped
+              ('#line 7 "a.c" junk\n1;', False), ('# 3 "b.c" 1 int x;\n2;', False), ('#line 7 junk\n1;', False), ('# 3 "b.c" 1 3 4\n2;', True), ('#line 9 "c.c"\n3;', True), ('#undef ZZ junk\n', False), ('#define\n', False)]
 
 
 def compare(r, ra, prog, text, key, where):
